@@ -1,5 +1,6 @@
 import PebblesVerif.Props.C04
 import PebblesVerif.Proofs.MergeOrder
+import PebblesVerif.Proofs.MergeRoutes
 /-!
 # C05 — conflicting service schemas are rejected, independent of service order
 
@@ -178,6 +179,20 @@ theorem C05_perm_partial (l l' : List MergeInput) (hp : l.Perm l') (hne : l ≠ 
   intro T hb hr
   rw [← (hp.filter (declC T)).length_eq]
   exact h2 T hb hr
+
+/-- C05, order of n services, Node-field ROUTES: when a list and a permutation of it are both
+    accepted, every non-`id` field that a service declares on a type it declares as a Node type is
+    routed to that service in both tables (it has no other declarer). Full. Any number of services. -/
+theorem C05_perm_routes (l l' : List MergeInput) (hp : l.Perm l') (R R' : Schema)
+    (h : mergeSchema facts l = .ok R) (h' : mergeSchema facts l' = .ok R')
+    (hroot : ∀ i ∈ l, RootsAreObjects i.schema) (hnd : ∀ i ∈ l, TypesNodup i.schema)
+    (i : MergeInput) (hi : i ∈ l) (T f : String) (hs : Stores facts i.schema.types T f) (hN : NodeObj i T)
+    (hrT : isRootName T = false) (hNT : T ≠ nodeInterfaceName) (hb : isBuiltinName f = false) :
+    Tum.get? (build facts l) T f = some i.url ∧ Tum.get? (build facts l') T f = some i.url := by
+  rw [C05_facts] at h h' hs ⊢
+  exact ⟨node_route_E h hroot hnd hi hs hN hrT hNT hb,
+    node_route_E h' (fun j hj => hroot j (hp.mem_iff.mpr hj)) (fun j hj => hnd j (hp.mem_iff.mpr hj))
+      (hp.mem_iff.mp hi) hs hN hrT hNT hb⟩
 
 /-! ## … and what is false -/
 
